@@ -184,7 +184,7 @@ fn nontrivial(v: &V) -> bool {
 // ---- generators --------------------------------------------------------------------------------
 
 fn string_strategy() -> impl Strategy<Value = String> {
-    prop_oneof![
+    crate::oneof![
         4 => proptest::collection::vec(proptest::sample::select(EMIT30), 0..6).prop_map(|v| v.concat()),
         3 => crate::props::c08::random_text(),
         2 => "\\PC{0,20}",
@@ -201,12 +201,12 @@ fn string_strategy() -> impl Strategy<Value = String> {
 }
 
 fn leaf() -> impl Strategy<Value = V> {
-    prop_oneof![
+    crate::oneof![
         1 => Just(V::Null),
         1 => any::<bool>().prop_map(V::Bool),
-        2 => prop_oneof![any::<i64>(), Just(i64::MIN), Just(i64::MAX), Just(0i64), -300i64..300].prop_map(V::Int),
-        3 => prop_oneof![
-            any::<f64>(),
+        2 => crate::oneof![any::<i64>(), Just(i64::MIN), Just(i64::MAX), Just(0i64), -300i64..300].prop_map(V::Int),
+        3 => crate::oneof![
+            crate::engine::any_f64(),
             (-1000i64..1000).prop_map(|i| i as f64),
             (-100000i64..100000).prop_map(|i| i as f64 / 100.0),
             proptest::sample::select(vec![0.0, -0.0, 1.0, -1.0, 1e16, 1e15, 1e21, 1e22, 1e-7, 1e300, -1e300, f64::MIN_POSITIVE, 5e-324, f64::MAX, f64::MIN, f64::INFINITY, f64::NEG_INFINITY, f64::NAN, 0.1, 1.5e-10, 123456789012345680.0, 9007199254740993.0]),
@@ -216,10 +216,10 @@ fn leaf() -> impl Strategy<Value = V> {
 }
 
 pub fn tree_strategy() -> impl Strategy<Value = V> {
-    leaf().prop_recursive(5, 40, 4, |inner| {
-        prop_oneof![
+    crate::engine::recursive(leaf().boxed(), 5, 40, 4, |inner| {
+        crate::oneof![
             2 => proptest::collection::vec(inner.clone(), 0..4).prop_map(V::Seq),
-            3 => proptest::collection::vec((prop_oneof![3 => leaf(), 1 => inner.clone()], inner.clone()), 0..4).prop_map(V::Map),
+            3 => proptest::collection::vec((crate::oneof![3 => leaf(), 1 => inner.clone()], inner.clone()), 0..4).prop_map(V::Map),
         ]
     })
 }
